@@ -347,6 +347,6 @@ def sample_view(case):
 def parts(tier):
     quick = tier == "quick"
     return [HypPart(name="move", check=check, strategy=_case,
-                    examples=6 if quick else 400, seconds=22 if quick else 800),
+                    examples=6 if quick else 400, seconds=22 if quick else 600),
             HypPart(name="sequence", check=check_sequence, strategy=_seq_case,
                     examples=6 if quick else 400, seconds=20 if quick else 500)]
